@@ -3,6 +3,7 @@ package dht
 import (
 	"context"
 	"net"
+	"time"
 
 	"github.com/anacrolix/dht/v2/krpc"
 	peer_store "github.com/anacrolix/dht/v2/peer-store"
@@ -33,10 +34,13 @@ func verifStillServes(v *verifSrv, label string) {
 	ping := krpc.Msg{Q: "ping", Y: "q", T: "zz", A: &krpc.MsgArgs{ID: verifIDInBucket(v.id, 2)}}
 	v.sock.deliver(verifEncode(ping, 50), fresh)
 	if verifEventCount("limiter.deny")+verifEventCount("limiter.waiterr") == denied {
-		ok := len(v.sock.sent) == before+1
-		if ok {
-			w := v.sock.sent[before]
-			ok = verifSameUDP(w.addr, fresh) && w.msg.T == "zz" && w.msg.Y == "r"
+		// (other traffic of the node's own may be written meanwhile)
+		ok := false
+		for _, w := range v.sock.sent[before:] {
+			if verifSameUDP(w.addr, fresh) && w.msg.Y != "q" {
+				verifAssert(!ok && w.msg.T == "zz" && w.msg.Y == "r", "C01: "+label+": exactly one response goes to the pinging address")
+				ok = true
+			}
 		}
 		verifAssert(ok, "C01: "+label+": a well-formed ping from a fresh address is still answered")
 	}
@@ -222,5 +226,66 @@ func verifC01Hostile(full bool) {
 	v.sock.deliver(verifEncode(verifHostileReply(v, tid, full), 70), dst)
 	verifAssert(done, "C01: the public query API returns once the (hostile) reply has arrived")
 	verifStillServes(v, "after a hostile reply to an in-flight query")
+	verifReach("end")
+}
+
+// Table maintenance in flight: TableMaintainer (questionable-node pings, bucket refresh traversal over
+// the table's own contacts) runs on a populated table while a datagram arrives; the remote nodes
+// never answer. The node still answers the ping, the API returns, and after Close the maintainer
+// returns and nothing stays blocked (engine verdict). Every lock the maintainer and its traversal
+// take while the serve loop wants the server lock is part of the run (sync.RWMutex semantics of the
+// engine: a waiting writer holds back new readers).
+func VerifC01_MaintainerDatagram()     { verifC01Maintainer(2) }
+func VerifC01_MaintainerDatagramLong() { verifC01Maintainer(4) }
+
+func verifC01Maintainer(rounds int) {
+	verifLimiterAlwaysGrants()
+	v := verifStartServer(verifSrvOpt{noSecurity: true, concreteID: true})
+	verifFreezeClock(true)
+	for i, b := range []int{3, 5} {
+		verifAddContact(v, verifContact{
+			state: verifGood, bucket: b,
+			id:   verifConcreteIDInBucket(v.id, b, byte(i+1)),
+			addr: &net.UDPAddr{IP: net.IP{198, 51, 100, byte(10 + i)}, Port: 2000 + i},
+		})
+	}
+	if verifNondetBool() {
+		// bootstrapped a moment ago: the maintainer goes straight to the buckets
+		v.s.mu.Lock()
+		v.s.lastBootstrap = time.Now()
+		v.s.mu.Unlock()
+	}
+	// a ping that arrives at a moment of the scheduler's choosing while the maintainer works (at the
+	// latest when everything else has come to rest)
+	early := &net.UDPAddr{IP: net.IP{203, 0, 113, 8}, Port: 40001}
+	earlyPing := verifEncode(krpc.Msg{Q: "ping", Y: "q", T: "yy", A: &krpc.MsgArgs{ID: verifConcreteIDInBucket(v.id, 2, 9)}}, 50)
+	go func() {
+		verifDormant()
+		v.sock.in <- verifDatagram{b: earlyPing, n: -1, addr: early}
+	}()
+	done := false
+	go func() {
+		v.s.TableMaintainer()
+		done = true
+	}()
+	verifQuiesce()
+	answered := 0
+	for _, w := range v.sock.sent {
+		if verifSameUDP(w.addr, early) && w.msg.Y == "r" && w.msg.T == "yy" {
+			answered++
+		}
+	}
+	verifAssert(answered == 1, "C01: a ping arriving during table maintenance is answered")
+	verifStillServes(v, "during table maintenance")
+	for i := 0; i < rounds && !done && verifFireTimers() > 0; i++ {
+		verifQuiesce()
+	}
+	verifStillServes(v, "after resend intervals and the maintainer's next round")
+	v.s.Close()
+	verifQuiesce()
+	for i := 0; i < 8 && !done && verifFireTimers() > 0; i++ {
+		verifQuiesce()
+	}
+	verifAssert(done, "C01: TableMaintainer returns once the server is closed")
 	verifReach("end")
 }
